@@ -35,6 +35,15 @@ pub fn run(ctx: &Ctx) -> Outcome {
         acc.merge(a4);
         describe.push_str(&format!("; plus {} patterns with counted repeats of 10-256 (a{{n}}, a{{n,}}, [ab]{{2,n}}c, (?:ab){{n}}, (a{{n}})\\1?, \\ba{{n}}\\b, look-around and atomic bodies) x texts of n/10, n-1, n, n+1, 2n repetitions at 5 start offsets", fam.len()));
     }
+    // a literal loop behind a literal prefix, continuation that needs a give-back, word boundary
+    {
+        let texts = crate::gen::texts(&["a", "b", "-"], 4);
+        let items: Vec<diff::PairItem> = crate::gen::literal_loop_family().into_iter().map(|p| diff::PairItem { pattern: p, reference: None, texts: texts.clone(), all_offsets: true }).collect();
+        let a7 = diff::run_items(ctx, "C01", &items, false, crate::refm::BUDGET);
+        acc.add("literal-loop-evaluations", a7.evals);
+        acc.merge(a7);
+        describe.push_str(&format!("; plus {} patterns 'two literals, a greedy loop over one literal, a continuation, a word boundary' x all texts over a b - up to length 4, every offset", items.len()));
+    }
     // wide match state: 3-8 groups in a counted loop that has to be undone
     {
         let fam = crate::gen::wide_group_family(ctx.seed, ctx.tier.pick(1_500, 20_000), true);
